@@ -334,7 +334,10 @@ def run_conversations(spec, fault_at=None, tr=None, max_iterations=400000, optio
                     rec = TurnRecord(c, t, turn["tok"], turn["text"])
                     h0 = len(world.history)
                     opts = options_fn(c, t) if options_fn else None
-                    if spec["colang"] == "1.0":
+                    if spec["colang"] == "1.0" and spec.get("v1_state_continuity"):
+                        # the conversation is continued through the state object the previous call returned (only the new message is sent)
+                        st, res = await world.generate("c%d" % c, messages=[{"role": "user", "content": turn["text"]}], options=opts, state=state if state is not None else {})
+                    elif spec["colang"] == "1.0":
                         msgs.append({"role": "user", "content": turn["text"]})
                         st, res = await world.generate("c%d" % c, messages=msgs, options=opts)
                     else:
@@ -345,7 +348,7 @@ def run_conversations(spec, fault_at=None, tr=None, max_iterations=400000, optio
                     if st == "ok":
                         msg = res
                         if hasattr(res, "response"):
-                            state = getattr(res, "state", None) if spec["colang"] != "1.0" else None
+                            state = getattr(res, "state", None) if (spec["colang"] != "1.0" or spec.get("v1_state_continuity")) else None
                             if state_mode == "live" and state is not None:
                                 state = live.get("state")
                             msg = res.response[0] if isinstance(res.response, list) else {"role": "assistant", "content": res.response}
